@@ -1,3 +1,284 @@
 From Base Require Import CInt.
-From C02 Require Import Gen Model Tactics.
+From C02 Require Import Gen Model Tactics ProofsHelpers ProofsHelpersCmp.
 Local Open Scope Z_scope.
+
+(* ---------------------------------------------------------------- wrap_value *)
+
+(* wrap_value is the two's complement reduction only for |v| <= 2^bits (it was written to
+   reinterpret a value of the unsigned counterpart, or one borrow below zero) *)
+Lemma wrap_value_one_wrap t v : wf_ity t -> - tmod t <= v <= tmod t ->
+  wrap_value t v = wrap t v.
+Proof.
+  intros Ht. unfold wrap_value, bwrap.
+  ity_cases t Ht; ity_norm; intros Hv;
+    repeat match goal with |- context [if ?c then _ else _] => destruct c eqn:? end; lia.
+Qed.
+
+(* for unsigned types it is always correct *)
+Lemma wrap_value_unsigned t v : wf_ity t -> sgn t = false -> wrap_value t v = wrap t v.
+Proof.
+  intros Ht Hs. unfold wrap_value, bwrap. rewrite Hs. cbn [andb].
+  destruct (in_rangeb t v) eqn:R.
+  - apply in_rangeb_spec in R. symmetry. apply wrap_id; assumption.
+  - rewrite wrap_unsigned by exact Hs. rewrite tmod_eq by exact Ht. reflexivity.
+Qed.
+
+(* in every case the result is congruent to the value modulo 2^bits (so a second application,
+   or C's own conversion of the literal, lands on the right value) *)
+Lemma wrap_value_congruent t v : wf_ity t -> wrap t (wrap_value t v) = wrap t v.
+Proof.
+  intros Ht. apply wrap_eqm; [exact Ht|]. unfold wrap_value, bwrap. rewrite <- tmod_eq by exact Ht.
+  pose proof (tmod_pos t Ht) as Hp.
+  destruct (in_rangeb t v); [reflexivity|].
+  destruct (sgn t && (tmax t <? v)).
+  - generalize (tmod t) Hp. intros M HM.
+    replace (- (- v mod M)) with (0 - (- v mod M)) by lia.
+    rewrite Zminus_mod_idemp_r. f_equal. lia.
+  - apply Z.mod_mod. lia.
+Qed.
+
+(* ---------------------------------------------------------------- run-time side: + - * *)
+
+(* reducing into a wider type first does not change the reduction into a narrower one *)
+Lemma wrap_wrap_narrow t c x : wf_ity t -> wf_ity c -> bits t <= bits c -> wrap t (wrap c x) = wrap t x.
+Proof.
+  intros Ht Hc. ity_cases t Ht; ity_cases c Hc; ity_norm; intros Hb; try lia.
+Qed.
+
+Lemma bits_rt_le_arith lt rt : wf_ity lt -> wf_ity rt ->
+  bits (promote_type lt rt) <= bits (c_arith_type lt rt) /\ wf_ity (promote_type lt rt).
+Proof. intros Hl Hr. ity_cases lt Hl; ity_cases rt Hr; vm_compute; split; congruence. Qed.
+
+Lemma rt_add_modular lt rt a b : wf_ity lt -> wf_ity rt ->
+  rt_bin Badd lt rt a b = Rval (rt_type Badd lt rt) (wrap (rt_type Badd lt rt) (a + b)).
+Proof.
+  intros Hl Hr. unfold rt_bin, of_val. rewrite c_add_modular by (try assumption; reflexivity).
+  cbn [obind]. destruct (bits_rt_le_arith lt rt Hl Hr) as [Hb Hw].
+  change (rt_type Badd lt rt) with (promote_type lt rt).
+  rewrite c_conv_gnu by exact Hw. rewrite wrap_wrap_narrow; auto using wf_arith_type.
+Qed.
+Lemma rt_sub_modular lt rt a b : wf_ity lt -> wf_ity rt ->
+  rt_bin Bsub lt rt a b = Rval (rt_type Bsub lt rt) (wrap (rt_type Bsub lt rt) (a - b)).
+Proof.
+  intros Hl Hr. unfold rt_bin, of_val. rewrite c_sub_modular by (try assumption; reflexivity).
+  cbn [obind]. destruct (bits_rt_le_arith lt rt Hl Hr) as [Hb Hw].
+  change (rt_type Bsub lt rt) with (promote_type lt rt).
+  rewrite c_conv_gnu by exact Hw. rewrite wrap_wrap_narrow; auto using wf_arith_type.
+Qed.
+Lemma rt_mul_modular lt rt a b : wf_ity lt -> wf_ity rt ->
+  rt_bin Bmul lt rt a b = Rval (rt_type Bmul lt rt) (wrap (rt_type Bmul lt rt) (a * b)).
+Proof.
+  intros Hl Hr. unfold rt_bin, of_val. rewrite c_mul_modular by (try assumption; reflexivity).
+  cbn [obind]. destruct (bits_rt_le_arith lt rt Hl Hr) as [Hb Hw].
+  change (rt_type Bmul lt rt) with (promote_type lt rt).
+  rewrite c_conv_gnu by exact Hw. rewrite wrap_wrap_narrow; auto using wf_arith_type.
+Qed.
+Lemma rt_unm_modular t a : wf_ity t -> rt_un Uunm t a = Rval t (wrap t (- a)).
+Proof.
+  intros Ht. unfold rt_un, of_val. rewrite c_neg_modular by (try assumption; reflexivity).
+  cbn [obind]. rewrite c_conv_gnu by exact Ht. rewrite wrap_wrap_narrow; auto using wf_promote.
+  ity_cases t Ht; vm_compute; congruence.
+Qed.
+
+(* ---------------------------------------------------------------- the property, full strength *)
+
+(* result of folding `a o b` on typed constants agrees with the run time (see Properties.v) *)
+Definition fold_agrees_at (o : binop) (lt rt : ity) (a b : Z) : Prop :=
+  let T := rt_type o lt rt in
+  forall e, exact_bin o lt a b = Some e -> in_range T a -> in_range T b ->
+  exists t' v, fold_bin o lt rt a b false false = Fval t' v /\ in_range t' v /\
+    (in_range T e -> baked t' v = e) /\
+    (~ in_range T e -> v = e \/ rt_bin o lt rt a b = Rval T (baked t' v)).
+
+Definition fold_agrees : Prop :=
+  forall o lt rt a b, wf_ity lt -> wf_ity rt -> is_cmpop o = false ->
+    in_range lt a -> in_range rt b -> fold_agrees_at o lt rt a b.
+
+(* witness 1: 9223372036854775807 * 3 folds to a value outside its own type *)
+Lemma fold_agrees_refuted_mul : ~ fold_agrees_at Bmul I64 I64 9223372036854775807 3.
+Proof.
+  intros H. destruct (H _ eq_refl) as (t' & v & Hf & Hr & _); try (vm_compute; split; congruence).
+  vm_compute in Hf. injection Hf as <- <-. vm_compute in Hr. destruct Hr as [Hr _]. apply Hr. reflexivity.
+Qed.
+
+(* witness 2: 77_i8 << 2 folds to (int16, -204): neither 308 nor the run-time 52 *)
+Lemma fold_agrees_refuted_shl : ~ fold_agrees_at Bshl I8 I8 77 2.
+Proof.
+  intros H. destruct (H _ eq_refl) as (t' & v & Hf & Hr & _ & Hn); try (vm_compute; split; congruence).
+  vm_compute in Hf. injection Hf as <- <-.
+  destruct Hn as [Hn | Hn].
+  - vm_compute. intros [_ Hc]. apply Hc. reflexivity.
+  - vm_compute in Hn. discriminate.
+  - vm_compute in Hn. discriminate.
+Qed.
+
+Lemma fold_agrees_refuted : ~ fold_agrees.
+Proof.
+  intros H. apply fold_agrees_refuted_mul. apply H; try reflexivity; vm_compute; split; congruence.
+Qed.
+
+(* the run-time shift helper narrows the count to the left operand's type *)
+Lemma rt_shift_count_narrowed :
+  rt_bin Bshl I8 I32 1 257 = Rval I8 2 /\ fold_bin Bshl I8 I32 1 257 false false = Fval I8 0 /\
+  exact_bin Bshl I8 1 257 = Some 0.
+Proof. repeat split. Qed.
+
+(* ---------------------------------------------------------------- fold side: exactness *)
+
+(* promote_type_for_value finds a type that holds the value whenever int64 (or, for a
+   non-negative value of an unsigned type, uint64) can *)
+Lemma promote_fits t v : wf_ity t ->
+  (in_range I64 v \/ (sgn t = false /\ 0 <= v /\ in_range U64 v)) ->
+  in_range (promote_type_for_value t v) v /\ wf_ity (promote_type_for_value t v).
+Proof.
+  intros Ht. unfold promote_type_for_value.
+  ity_cases t Ht; cbv [promote_signed_types promote_unsigned_types first_fit]; ity_norm; intros Hv;
+    repeat match goal with |- context [if ?c then _ else _] => destruct c eqn:? end;
+    ity_norm; split; try reflexivity; try lia; try (destruct Hv as [Hv | (Hs & Hv)]; try discriminate Hs; lia).
+Qed.
+
+Lemma wrap_value_id t v : in_range t v -> wrap_value t v = v.
+Proof. intros H. unfold wrap_value. apply in_rangeb_spec in H. rewrite H. reflexivity. Qed.
+
+Lemma baked_id t v : wf_ity t -> in_range t v -> baked t v = v.
+Proof.
+  intros Ht H. unfold baked. pose proof H as H'. apply in_rangeb_spec in H'. rewrite H'.
+  destruct (sgn t) eqn:S; cbn [negb andb orb]; [reflexivity|].
+  assert (0 <= v). { revert H. ity_cases t Ht; try discriminate S; ity_norm; lia. }
+  destruct (v <? 0) eqn:N; [lia|reflexivity].
+Qed.
+
+Definition exact_arith (o : binop) : bool :=
+  match o with Badd | Bsub | Bmul | Bidiv | Bmod => true | _ => false end.
+
+(* partial form of the property: + - * // % on typed constants fold to the exact result,
+   carried by a type that holds it, whenever the exact result fits int64 (or uint64 when the
+   operation type is unsigned and the result non-negative) *)
+Lemma fold_agrees_partial o lt rt a b e : wf_ity lt -> wf_ity rt -> exact_arith o = true ->
+  exact_bin o lt a b = Some e ->
+  (in_range I64 e \/ (sgn (promote_type lt rt) = false /\ 0 <= e /\ in_range U64 e)) ->
+  exists t', fold_bin o lt rt a b false false = Fval t' e /\ in_range t' e /\ baked t' e = e.
+Proof.
+  intros Hl Hr Ho He Hfit.
+  assert (Hw : wf_ity (promote_type lt rt)) by (ity_cases lt Hl; ity_cases rt Hr; reflexivity).
+  destruct (promote_fits (promote_type lt rt) e Hw Hfit) as [Hin Hwf].
+  exists (promote_type_for_value (promote_type lt rt) e).
+  assert (Hf : fold_bin o lt rt a b false false = Fval (promote_type_for_value (promote_type lt rt) e)
+                 (wrap_value (promote_type_for_value (promote_type lt rt) e) e)).
+  { unfold fold_bin, op_type, arith_op_type, attrs_type.
+    destruct o; try discriminate Ho; cbn [is_cmpop is_divop is_shiftop is_bitop negb andb raw_value exact_bin] in *;
+      try (injection He as <-; reflexivity);
+      destruct (b =? 0); try discriminate He; injection He as <-; reflexivity. }
+  rewrite Hf, wrap_value_id by exact Hin. split; [reflexivity|]. split; [exact Hin|]. apply baked_id; assumption.
+Qed.
+
+(* non-vacuity *)
+Example ex_fold_add : fold_bin Badd U8 U8 200 100 false false = Fval U16 300. Proof. reflexivity. Qed.
+Example ex_fold_sub : fold_bin Bsub U8 U8 3 5 false false = Fval I8 (-2). Proof. reflexivity. Qed.
+Example ex_rt_sub : rt_bin Bsub U8 U8 3 5 = Rval U8 254. Proof. reflexivity. Qed.
+Example ex_fold_idiv : fold_bin Bidiv I8 I8 (-128) (-1) false false = Fval I16 128. Proof. reflexivity. Qed.
+Example ex_conv : conv_accepts I8 128 = false /\ conv_accepts I8 127 = true. Proof. split; reflexivity. Qed.
+Example ex_baked : baked I64 (-9223372036854775811) = 9223372036854775805. Proof. reflexivity. Qed.
+
+(* ---------------------------------------------------------------- run-time side: shifts, comparisons *)
+
+Lemma rt_shl_partial lt rt a b : wf_ity lt -> in_range lt a -> in_range (to_signed lt) b ->
+  rt_bin Bshl lt rt a b = Rval lt (wrap lt (exact_shl lt a b)).
+Proof.
+  intros Hl Ha Hb. unfold rt_bin, of_call. change (rt_type Bshl lt rt) with lt.
+  destruct (shift_tables_complete lt Hl) as ((f & Hf) & _). rewrite Hf.
+  rewrite (shl_helper_correct lt f a b (lookup1_in _ _ _ Hf) Ha Hb). reflexivity.
+Qed.
+Lemma rt_shr_partial lt rt a b : wf_ity lt -> in_range lt a -> in_range (to_signed lt) b ->
+  rt_bin Bshr lt rt a b = Rval lt (wrap lt (exact_shr lt a b)).
+Proof.
+  intros Hl Ha Hb. unfold rt_bin, of_call. change (rt_type Bshr lt rt) with lt.
+  destruct (shift_tables_complete lt Hl) as (_ & (f & Hf) & _). rewrite Hf.
+  rewrite (shr_helper_correct lt f a b (lookup1_in _ _ _ Hf) Hl Ha Hb). reflexivity.
+Qed.
+Lemma rt_asr_partial lt rt a b : wf_ity lt -> in_range lt a -> in_range (to_signed lt) b ->
+  rt_bin Basr lt rt a b = Rval lt (wrap lt (exact_asr lt a b)).
+Proof.
+  intros Hl Ha Hb. unfold rt_bin, of_call. change (rt_type Basr lt rt) with lt.
+  destruct (shift_tables_complete lt Hl) as (_ & _ & (f & Hf)). rewrite Hf.
+  rewrite (asr_helper_correct lt f a b (lookup1_in _ _ _ Hf) Ha Hb). reflexivity.
+Qed.
+
+Lemma operands_same_sign lt rt a b : wf_ity lt -> wf_ity rt -> mixed lt rt = false ->
+  in_range lt a -> in_range rt b -> c_operands lt rt a b = (c_arith_type lt rt, a, b).
+Proof.
+  intros Hl Hr Hm Ha Hb. unfold mixed in Hm. apply negb_false_iff in Hm. apply Bool.eqb_prop in Hm.
+  destruct (sgn lt) eqn:Sl.
+  - apply c_operands_exact_signed; try assumption. apply arith_type_signed_same_sign; congruence.
+  - assert (0 <= a) by (revert Ha; ity_cases lt Hl; try discriminate Sl; ity_norm; lia).
+    assert (0 <= b) by (revert Hb; ity_cases rt Hr; try discriminate Hm; ity_norm; lia).
+    apply c_operands_exact_nonneg; assumption.
+Qed.
+
+(* all six comparisons are exact at run time, for every pair of types and values *)
+Lemma rt_cmp_exact o lt rt a b : wf_ity lt -> wf_ity rt -> is_cmpop o = true ->
+  in_range lt a -> in_range rt b -> rt_bin o lt rt a b = Rbool (cmp_value o a b).
+Proof.
+  intros Hl Hr Ho Ha Hb. destruct (mixed lt rt) eqn:M.
+  - assert (M' : mixed rt lt = true) by (unfold mixed in *; destruct (sgn lt), (sgn rt); auto).
+    destruct (cmp_tables_complete lt rt Hl Hr M) as ((f1 & F1) & E1).
+    destruct (cmp_tables_complete rt lt Hr Hl M') as ((f2 & F2) & E2).
+    pose proof (lt_helper_correct lt rt f1 a b (lookup2_in _ _ _ _ F1) Ha Hb) as L1.
+    pose proof (lt_helper_correct rt lt f2 b a (lookup2_in _ _ _ _ F2) Hb Ha) as L2.
+    destruct o; try discriminate Ho; unfold rt_bin, of_bool; rewrite M; cbn [cmp_value].
+    + rewrite F1, L1. destruct (a <? b); reflexivity.
+    + rewrite F2, L2. rewrite Z.leb_antisym. destruct (b <? a); reflexivity.
+    + rewrite F2, L2. destruct (b <? a); reflexivity.
+    + rewrite F1, L1. rewrite Z.leb_antisym. destruct (a <? b); reflexivity.
+    + destruct (sgn lt) eqn:S.
+      * destruct (E1 eq_refl) as (g & G). rewrite G.
+        rewrite (eq_helper_correct lt rt g a b (lookup2_in _ _ _ _ G) Ha Hb). destruct (a =? b); reflexivity.
+      * assert (S' : sgn rt = true) by (unfold mixed in M; rewrite S in M; destruct (sgn rt); [reflexivity | discriminate]).
+        destruct (E2 S') as (g & G). rewrite G.
+        rewrite (eq_helper_correct rt lt g b a (lookup2_in _ _ _ _ G) Hb Ha). rewrite (Z.eqb_sym b a).
+        destruct (a =? b); reflexivity.
+    + destruct (sgn lt) eqn:S.
+      * destruct (E1 eq_refl) as (g & G). rewrite G.
+        rewrite (eq_helper_correct lt rt g a b (lookup2_in _ _ _ _ G) Ha Hb). destruct (a =? b); reflexivity.
+      * assert (S' : sgn rt = true) by (unfold mixed in M; rewrite S in M; destruct (sgn rt); [reflexivity | discriminate]).
+        destruct (E2 S') as (g & G). rewrite G.
+        rewrite (eq_helper_correct rt lt g b a (lookup2_in _ _ _ _ G) Hb Ha). rewrite (Z.eqb_sym b a).
+        destruct (a =? b); reflexivity.
+  - pose proof (operands_same_sign lt rt a b Hl Hr M Ha Hb) as Op.
+    destruct o; try discriminate Ho; unfold rt_bin, of_cmp; rewrite M;
+      unfold c_lt, c_le, c_gt, c_ge, c_eq, c_ne; rewrite Op; cbn [cmp_value];
+      match goal with |- context [zb ?c] => destruct c end; reflexivity.
+Qed.
+
+(* the fold side of comparisons is the exact comparison by definition of fold_bin *)
+Lemma fold_cmp_exact o lt rt a b lu ru : is_cmpop o = true ->
+  fold_bin o lt rt a b lu ru = Fbool (cmp_value o a b).
+Proof. intros Ho. unfold fold_bin. rewrite Ho. reflexivity. Qed.
+
+(* ---------------------------------------------------------------- wrap_value / literal / conversion *)
+
+Lemma wrap_value_refuted : exists t v, wf_ity t /\ wrap_value t v <> wrap t v /\ ~ in_range t (wrap_value t v).
+Proof.
+  exists I64, (9223372036854775807 * 3). repeat split; vm_compute; try congruence. intros [H _]. apply H. reflexivity.
+Qed.
+
+(* what ends up in the C code for an out-of-range constant is right whenever |v| <= 2^bits *)
+Lemma baked_one_wrap t v : wf_ity t -> - tmod t <= v <= tmod t -> baked t v = wrap t v.
+Proof.
+  intros Ht Hv. unfold baked.
+  destruct ((negb (sgn t) && (v <? 0)) || negb (in_rangeb t v)) eqn:C.
+  - apply wrap_value_one_wrap; assumption.
+  - apply orb_false_elim in C. destruct C as [_ C]. apply negb_false_iff in C.
+    apply in_rangeb_spec in C. symmetry. apply wrap_id; assumption.
+Qed.
+
+Lemma baked_congruent t v : wf_ity t -> wrap t (baked t v) = wrap t v.
+Proof.
+  intros Ht. unfold baked. destruct ((negb (sgn t) && (v <? 0)) || negb (in_rangeb t v)); [|reflexivity].
+  apply wrap_value_congruent; exact Ht.
+Qed.
+
+(* constant conversion is accepted exactly for the values the destination can represent - the
+   very condition under which the run-time check of C04 (nelua_assert_narrow_) does not fire *)
+Lemma conv_rejected_iff d v : conv_accepts d v = false <-> ~ in_range d v.
+Proof. unfold conv_accepts. apply in_rangeb_false. Qed.
